@@ -2049,7 +2049,7 @@ esl_msa_ReasonableRF(ESL_MSA *msa, double symfrac, int useconsseq, char *rfline)
       for (apos = 1; apos <= msa->alen; apos++) 
       {
         r = totwgt = 0.;
-        esl_vec_FSet(counts, msa->abc->K, 0.0);
+        if (useconsseq) esl_vec_FSet(counts, msa->abc->K, 0.0);
         for (idx = 0; idx < msa->nseq; idx++)
         {
           if  (esl_abc_XIsResidue(msa->abc, msa->ax[idx][apos]))
